@@ -2,6 +2,7 @@
 SPECIFICATION Spec
 CONSTANTS
   MaxEdits = 1
+  Deep = FALSE
   Sample = FALSE
 INVARIANT CreateIsExact
 CHECK_DEADLOCK FALSE
